@@ -3,12 +3,35 @@ import PsVerif.Proofs.InterpFuel
 /-!
 # Feeding a program in several `Execute` calls (C12, last sentence)
 
-Part 1 (scanner).  `ext b l pre sc` is the scanner `sc` with `b` appended to its unread source.
-`FrAt b l pre f g sc`: the action `f` run on `sc`, compared with `g` run on `ext b l pre sc`:
+Statements: `Props/C12Split.lean`.  Overview of this file:
+
+**Part 1 (scanner).**  `ext b l pre sc` is the scanner `sc` with `b` appended to its unread
+source, `l` added to its line counter and `pre` put in front of its structured comments.
+`FrAt b l pre f g sc` compares the action `f` run on `sc` with `g` run on `ext b l pre sc`:
 * `f` never increases the number of unread bytes `meas = |src| + |peek|`;
-* if `f` ends without the sticky error being set (it never asked the reader for a byte beyond
-  the end of the source) then the sticky error was not set before and `g` on `ext b l pre sc`
-  returns the same value and ends in `ext b` of `f`'s final scanner.
+* *frame*: if `f` ends `Quiet` (the sticky error is unset, i.e. the reader was never asked for a
+  byte beyond the end of the source; or nothing was appended) then the start was `Quiet` and `g`
+  returns the same value and ends in `ext b l pre` of `f`'s final scanner;
+* `f` keeps the sticky error among the values the reader produces (`ErrStd`) and leaves
+  `eexec`/`regurgitate` alone.
+`fr_*`: one lemma per scanner function (decomposition tactic `fr_auto`; the loops by induction on
+their fuel, with the hypothesis that the fuel exceeds `meas`, which `fuelOf` always does; their
+proofs need that a successful `next`, and `skipByte` after a successful `peek`, consume a byte).
+`skipWhiteSpace` (`frw_skipWhiteSpace`), `scanToken`, `beginEexec`, `endEexec` satisfy the frame
+property `FrW` (for `skipWhiteSpace` with different fuels under the side condition that the short
+run does not end with the scanner model's own out-of-fuel failure).
+
+**Part 2 (interpreter).**  `extSt b l pre dd s` extends the scanner of `s` and replaces the
+interpreter's own list of structured comments by `dd`.  `allFr`: the frame property for the
+thirteen functions of the interpreter model, by simultaneous induction on the fuel.
+
+**Part 3 (the end of the first part).**  `wsTurn`: one turn of the `SkipWhiteSpace` loop;
+`wsEnd`/`atEnd`: the loop reaches the end of the input by whole quiet turns, at the start of a
+line; `ws_noSF`: outside eexec sections the loop never runs out of fuel; `firstToken`: the first
+token of the second part is scanned in the same way by the long run and by a new scanner;
+`cleanLoop`/`cleanRun`: the computable test "the first call ends cleanly at a token boundary";
+`allKeep`: `len(intp.scanners)` is restored and `CheckStart` is never set again;
+`split_aligned`, `split_two`, `split_many`: the results.
 -/
 namespace PsVerif.Proofs.SplitExec
 open PsVerif.Model PsVerif.Model.Scan
@@ -2776,9 +2799,9 @@ def finish (p : State × Res) : State × Res :=
   match p with
   | (s1, r) =>
     match r with
-    | .err .exit => (s1, .err (.ps "invalidexit"))
+    | .err .exit => ({ s1 with dsc := s1.dsc ++ s1.scanner.dsc }, .err (.ps "invalidexit"))
     | .err .stop | .ok => ({ s1 with dsc := s1.dsc ++ s1.scanner.dsc }, .ok)
-    | _ => (s1, r)
+    | _ => ({ s1 with dsc := s1.dsc ++ s1.scanner.dsc }, r)
 
 theorem execute_eq (f m : Nat) (s : State) (input : List UInt8) :
     execute f m s input none = finish (scanRun f m { s with scanner := fresh input }) := rfl
@@ -3193,39 +3216,32 @@ theorem startOf_dsc (s : State) : (startOf s).1.dsc = s.dsc := by
 
 /-- outcome of the single call in terms of the outcome `q` of the token loop of the second
 call: the same interpreter, a scanner that differs in the line counter and the recorded
-structured comments, and -/
+structured comments -/
 theorem finish_ext (l : Nat) (pre dd : List (String × String)) (q : State × Res) :
     finish (wrapR (extSt [] l pre dd q.1, q.2)) =
       ({ (finish (wrapR q)).1 with
           scanner := ext [] l pre (finish (wrapR q)).1.scanner,
-          dsc := if (finish (wrapR q)).2 = .ok then dd ++ (pre ++ q.1.scanner.dsc) else dd },
+          dsc := dd ++ (pre ++ q.1.scanner.dsc) },
        (finish (wrapR q)).2) := by
   obtain ⟨s1, r⟩ := q
   unfold finish wrapR
   dsimp only [extSt]
-  split
-  · simp
-  · simp
-  · simp
-  · rename_i h1 h2 h3
-    rw [if_neg h3]
+  split <;> rfl
 
-theorem finish_ok_dsc (q : State × Res) (hok : (finish (wrapR q)).2 = .ok) :
-    (finish (wrapR q)).1.dsc = q.1.dsc ++ q.1.scanner.dsc := by
+/-- `Execute` appends the scanner's structured comments whatever the result -/
+theorem finish_dsc (q : State × Res) : (finish (wrapR q)).1.dsc = q.1.dsc ++ q.1.scanner.dsc := by
   obtain ⟨s1, r⟩ := q
-  cases r with
-  | ok => rfl
-  | fuel => cases hok
-  | err e => cases e <;> first | rfl | cases hok
+  unfold finish wrapR
+  dsimp only
+  split <;> rfl
 
 /-- the state in which the first call leaves the interpreter -/
 def afterFirst (s sK : State) (scX : Scanner) : State :=
   { sK with scanner := eofOf scX, scannerDepth := sK.scannerDepth - 1, dsc := s.dsc ++ scX.dsc }
 
 /-- the single call, seen from the second call: `P2` is the outcome of the second call -/
-def merged (d0 : List (String × String)) (scX : Scanner) (P2 : State × Res) : State × Res :=
-  ({ P2.1 with scanner := ext [] scX.line scX.dsc P2.1.scanner,
-               dsc := if P2.2 = .ok then P2.1.dsc else d0 }, P2.2)
+def merged (scX : Scanner) (P2 : State × Res) : State × Res :=
+  ({ P2.1 with scanner := ext [] scX.line scX.dsc P2.1.scanner }, P2.2)
 
 /-- the two runs with aligned fuel, without any further hypothesis -/
 theorem split_aligned {f m : Nat} {s sK : State} {a : List UInt8} {j : Nat}
@@ -3234,7 +3250,7 @@ theorem split_aligned {f m : Nat} {s sK : State} {a : List UInt8} {j : Nat}
       execute f m s a none = (afterFirst s sK scX, .ok) ∧
       ∀ (b : List UInt8) (F : Nat), f ≤ F →
         execute (F + 1 + j + 1) m s (a ++ b) none =
-          merged s.dsc scX (execute (F + 1 + 1) m (afterFirst s sK scX) b none) := by
+          merged scX (execute (F + 1 + 1) m (afterFirst s sK scX) b none) := by
   cases f with
   | zero => simp [cleanRun] at hc
   | succ f =>
@@ -3334,9 +3350,9 @@ theorem split_aligned {f m : Nat} {s sK : State} {a : List UInt8} {j : Nat}
           rw [hb.2, finish_ext]
           generalize loopBody F m (T1, rT) = q at hqd ⊢
           unfold merged
-          by_cases hok : (finish (wrapR q)).2 = .ok
-          · rw [if_pos hok, if_pos hok, finish_ok_dsc q hok, hqd, List.append_assoc]
-          · rw [if_neg hok, if_neg hok]
+          have hfd := finish_dsc q
+          rw [hqd, List.append_assoc] at hfd
+          rw [← hfd]
       · cases hc
     · cases hc
 
@@ -3347,8 +3363,8 @@ def Good (r : Res) : Prop := r ≠ .fuel
 
 instance (r : Res) : Decidable (Good r) := by unfold Good; infer_instance
 
-theorem merged_good {d0 : List (String × String)} {scX : Scanner} {P : State × Res} (h : Good P.2) :
-    Good (merged d0 scX P).2 := h
+theorem merged_good {scX : Scanner} {P : State × Res} (h : Good P.2) :
+    Good (merged scX P).2 := h
 
 /-- if the single call is not cut short by the model then neither is the second call (with
 enough fuel) -/
@@ -3378,31 +3394,26 @@ theorem split_second_good {f m : Nat} {s sK : State} {a : List UInt8} {j : Nat}
   exact hfuel
 
 /-- the outcome `P1` of the single call against the outcome `P2` of the last of several calls:
-same result; same interpreter state except that the scanner's line counter and list of
-structured comments are those of the whole input (`l` more lines, `pre` in front), and
-that after an error the interpreter's own list of structured comments is still `d0`, the list
-before the single call (`Execute` appends the scanner's list only when it succeeds) -/
-def SplitRel (d0 : List (String × String)) (P1 P2 : State × Res) : Prop :=
+same result; same interpreter state (including the interpreter's list of structured comments,
+whatever the result) except that the scanner's line counter and list of structured comments
+are those of the whole input (`l` more lines, `pre` in front) -/
+def SplitRel (P1 P2 : State × Res) : Prop :=
   ∃ (l : Nat) (pre : List (String × String)),
-    P1 = ({ P2.1 with scanner := ext [] l pre P2.1.scanner,
-                      dsc := if P2.2 = .ok then P2.1.dsc else d0 }, P2.2)
+    P1 = ({ P2.1 with scanner := ext [] l pre P2.1.scanner }, P2.2)
 
 theorem ext_ext (l1 l2 : Nat) (p1 p2 : List (String × String)) (sc : Scanner) :
     ext [] l1 p1 (ext [] l2 p2 sc) = ext [] (l1 + l2) (p1 ++ p2) sc := by
   obtain ⟨src, fault, peek, reg, eexec, r, line, col, crSeen, dsc, err⟩ := sc
   simp [ext, Nat.add_assoc]
 
-theorem SplitRel.trans {d0 d1 : List (String × String)} {P1 P2 P3 : State × Res}
-    (h1 : SplitRel d0 P1 P2) (h2 : SplitRel d1 P2 P3) : SplitRel d0 P1 P3 := by
+theorem SplitRel.trans {P1 P2 P3 : State × Res}
+    (h1 : SplitRel P1 P2) (h2 : SplitRel P2 P3) : SplitRel P1 P3 := by
   obtain ⟨l1, p1, e1⟩ := h1
   obtain ⟨l2, p2, e2⟩ := h2
   refine ⟨l1 + l2, p1 ++ p2, ?_⟩
   rw [e1, e2]
   dsimp only
   rw [ext_ext]
-  by_cases hok : P3.2 = .ok
-  · simp only [hok, if_true]
-  · simp only [hok, if_false]
 
 /-- two-part form of the result -/
 theorem split_two {f m : Nat} {s : State} {a : List UInt8} (hc : (cleanRun f m s a).isSome = true) :
@@ -3414,9 +3425,7 @@ theorem split_two {f m : Nat} {s : State} {a : List UInt8} (hc : (cleanRun f m s
       execute F1 m s (a ++ b) none =
         ({ (execute F2 m (execute f m s a none).1 b none).1 with
             scanner := ext [] (execute f m s a none).1.scanner.line (execute f m s a none).1.scanner.dsc
-              (execute F2 m (execute f m s a none).1 b none).1.scanner,
-            dsc := if (execute F2 m (execute f m s a none).1 b none).2 = .ok
-              then (execute F2 m (execute f m s a none).1 b none).1.dsc else s.dsc },
+              (execute F2 m (execute f m s a none).1 b none).1.scanner },
          (execute F2 m (execute f m s a none).1 b none).2) := by
   obtain ⟨⟨sK, j⟩, hc⟩ := Option.isSome_iff_exists.mp hc
   obtain ⟨k, scX, hw, ha, hb⟩ := split_aligned hc
@@ -3437,18 +3446,6 @@ theorem split_two_good {f m : Nat} {s : State} {a : List UInt8} (hc : (cleanRun 
   obtain ⟨⟨sK, j⟩, hc⟩ := Option.isSome_iff_exists.mp hc
   exact split_second_good hc b F1 g1
 
-theorem execute_dsc_err (F m : Nat) (s : State) (b : List UInt8)
-    (h : (execute F m s b none).2 ≠ .ok) : (execute F m s b none).1.dsc = s.dsc := by
-  rw [execute_eq] at h ⊢
-  have e := scanRun_dsc F m { s with scanner := fresh b }
-  generalize scanRun F m { s with scanner := fresh b } = p at h e
-  obtain ⟨s1, r⟩ := p
-  dsimp only at e
-  cases r with
-  | ok => exact absurd rfl h
-  | fuel => exact e
-  | err x => cases x <;> first | exact e | exact absurd rfl h
-
 /-- feeding the parts one after the other: the state after the last of them -/
 def endState (f m : Nat) : State → List (List UInt8) → State
   | s, [] => s
@@ -3463,7 +3460,7 @@ theorem split_many (f m : Nat) : ∀ (parts : List (List UInt8)) (s : State) (b 
     ChainOK f m s parts → ∀ F1 F2,
       Good (execute F1 m s (parts.flatten ++ b) none).2 →
       Good (execute F2 m (endState f m s parts) b none).2 →
-      SplitRel s.dsc (execute F1 m s (parts.flatten ++ b) none) (execute F2 m (endState f m s parts) b none) := by
+      SplitRel (execute F1 m s (parts.flatten ++ b) none) (execute F2 m (endState f m s parts) b none) := by
   intro parts
   induction parts with
   | nil =>
@@ -3475,9 +3472,6 @@ theorem split_many (f m : Nat) : ∀ (parts : List (List UInt8)) (s : State) (b 
     rw [← e1, e2]
     refine ⟨0, [], ?_⟩
     rw [ext_nil]
-    by_cases hok : (execute F2 m s b none).2 = .ok
-    · rw [if_pos hok]
-    · rw [if_neg hok, ← execute_dsc_err F2 m s b hok]
   | cons a rest ih =>
     intro s b hch F1 F2 g1 g2
     obtain ⟨hc, hrest⟩ := hch
@@ -3486,7 +3480,7 @@ theorem split_many (f m : Nat) : ∀ (parts : List (List UInt8)) (s : State) (b 
     unfold endState at g2 ⊢
     obtain ⟨_, _, h2⟩ := split_two hc
     have gF := split_two_good hc (rest.flatten ++ b) F1 g1
-    have r1 : SplitRel s.dsc (execute F1 m s (a ++ (rest.flatten ++ b)) none)
+    have r1 : SplitRel (execute F1 m s (a ++ (rest.flatten ++ b)) none)
         (execute (F1 + f + 1 + 1) m (execute f m s a none).1 (rest.flatten ++ b) none) :=
       ⟨_, _, h2 (rest.flatten ++ b) F1 _ g1 gF⟩
     exact r1.trans (ih (execute f m s a none).1 b hrest _ F2 gF g2)
